@@ -1,4 +1,280 @@
-import XgiModel.C09.Measures
+/-
+  C09 — structural measures are invariant under relabelling and insertion order.
+
+  For every network `h` (shared static model `Xgi.Net`), every injective relabelling `π` of nodes and `σ` of
+  edge IDs, and every re-insertion `h'` of a well-formed `h` (`Reorder h h'`: node list, edge list and every
+  member list permuted):
+
+    measure (view (rename π σ h)) = the measure of `view h`, re-keyed by π / σ        (`…_rename`)
+    measure (view h')             ≈ the measure of `view h` (same dict contents /
+                                    same sets / same matrix entries through the
+                                    index maps / equal scalars)                       (`…_reorder`)
+
+  one pair of theorems per modelled measure.  The measures are the functions the driver runs
+  (XgiModel/C09/Measures.lean).  Property theorems only; helper lemmas are in XgiModel/C09/Lemmas*.lean.
+-/
+import XgiModel.C09.LemmasRen
+import XgiModel.C09.LemmasBFS
+
 namespace Xgi.C09
-theorem placeholder : True := trivial
+open Function
+
+variable {π σ : PyId → PyId} {h h' : Net}
+
+/-- re-key a per-node / per-edge dict -/
+abbrev rekey {β : Type} (f : PyId → PyId) (d : List (PyId × β)) : List (PyId × β) := d.map (fun p => (f p.1, p.2))
+
+
+/-! ### degree and edge size -/
+
+theorem C09_degree_rename (hπ : Injective π) (hσ : Injective σ) (h : Net) :
+    nodeDict (view (rename π σ h)) degree = rekey π (nodeDict (view h) degree) :=
+  nodeDict_ren (view_rename hπ hσ h) id (degree_ren (view_rename hπ hσ h))
+
+theorem C09_degree_reorder (hw : h.WF) (hr : Reorder h h') :
+    (nodeDict (view h') degree).Perm (nodeDict (view h) degree) :=
+  nodeDict_perm (vperm hw hr) (degree_perm (vperm hw hr))
+
+theorem C09_size_rename (hπ : Injective π) (hσ : Injective σ) (h : Net) :
+    edgeDict (view (rename π σ h)) size = rekey σ (edgeDict (view h) size) :=
+  edgeDict_ren (view_rename hπ hσ h) id (size_ren (view_rename hπ hσ h))
+
+theorem C09_size_reorder (hw : h.WF) (hr : Reorder h h') :
+    (edgeDict (view h') size).Perm (edgeDict (view h) size) :=
+  edgeDict_perm (vperm hw hr) (size_perm (vperm hw hr))
+
+/-! ### neighbours and average neighbour degree -/
+
+theorem C09_neighbors_rename (hπ : Injective π) (hσ : Injective σ) (h : Net) :
+    nodeDict (view (rename π σ h)) neighbors = (nodeDict (view h) neighbors).map (fun p => (π p.1, p.2.map π)) :=
+  nodeDict_ren (view_rename hπ hσ h) (List.map π) (neighbors_ren hπ (view_rename hπ hσ h))
+
+/-- same keys, and for every key the same neighbour set -/
+theorem C09_neighbors_reorder (hw : h.WF) (hr : Reorder h h') :
+    (view h').nodes.Perm (view h).nodes ∧ ∀ n, (neighbors (view h') n).Perm (neighbors (view h) n) :=
+  ⟨(vperm hw hr).nodes, neighbors_perm (vperm hw hr)⟩
+
+theorem C09_average_neighbor_degree_rename (hπ : Injective π) (hσ : Injective σ) (h : Net) :
+    nodeDict (view (rename π σ h)) avgNbrDeg = rekey π (nodeDict (view h) avgNbrDeg) :=
+  nodeDict_ren (view_rename hπ hσ h) id (avgNbrDeg_ren hπ (view_rename hπ hσ h))
+
+theorem C09_average_neighbor_degree_reorder (hw : h.WF) (hr : Reorder h h') :
+    (nodeDict (view h') avgNbrDeg).Perm (nodeDict (view h) avgNbrDeg) :=
+  nodeDict_perm (vperm hw hr) (avgNbrDeg_perm (vperm hw hr))
+
+/-! ### the three clustering coefficients -/
+
+theorem C09_clustering_coefficient_rename (hπ : Injective π) (hσ : Injective σ) (h : Net) :
+    nodeDict (view (rename π σ h)) clusteringCoef = rekey π (nodeDict (view h) clusteringCoef) :=
+  nodeDict_ren (view_rename hπ hσ h) id (clusteringCoef_ren hπ (view_rename hπ hσ h))
+
+theorem C09_clustering_coefficient_reorder (hw : h.WF) (hr : Reorder h h') :
+    (nodeDict (view h') clusteringCoef).Perm (nodeDict (view h) clusteringCoef) :=
+  nodeDict_perm (vperm hw hr) (clusteringCoef_perm (vperm hw hr))
+
+/-- `local_clustering_coefficient` with members looked up by edge ID (the repaired code, finding F7) -/
+theorem C09_local_clustering_coefficient_rename (hπ : Injective π) (hσ : Injective σ) (h : Net) :
+    nodeDict (view (rename π σ h)) localCC = rekey π (nodeDict (view h) localCC) :=
+  nodeDict_ren (view_rename hπ hσ h) id (localCC_ren hπ (view_rename hπ hσ h))
+
+theorem C09_local_clustering_coefficient_reorder (hw : h.WF) (hr : Reorder h h') :
+    (nodeDict (view h') localCC).Perm (nodeDict (view h) localCC) :=
+  nodeDict_perm (vperm hw hr) (localCC_perm (vperm hw hr))
+
+theorem C09_two_node_clustering_coefficient_rename (hπ : Injective π) (hσ : Injective σ) (h : Net) (k : Kind) :
+    nodeDict (view (rename π σ h)) (fun v n => twoNodeCC v k n) = rekey π (nodeDict (view h) (fun v n => twoNodeCC v k n)) :=
+  nodeDict_ren (view_rename hπ hσ h) id (twoNodeCC_ren hπ hσ (view_rename hπ hσ h) k)
+
+theorem C09_two_node_clustering_coefficient_reorder (hw : h.WF) (hr : Reorder h h') (k : Kind) :
+    (nodeDict (view h') (fun v n => twoNodeCC v k n)).Perm (nodeDict (view h) (fun v n => twoNodeCC v k n)) :=
+  nodeDict_perm (vperm hw hr) (twoNodeCC_perm (vperm hw hr) k)
+
+/-! ### connected components and distances -/
+
+/-- the fuel `len(H.nodes)` given to the BFS suffices: the result is closed under taking neighbours, and it is
+    exactly the set of nodes reachable from the source -/
+theorem C09_bfs_fuel_suffices (h : Net) (n : PyId) :
+    (∀ m x, m ∈ comp (view h) n → x ∈ (view h).nodes → x ∈ neighbors (view h) m → x ∈ comp (view h) n) ∧
+    (∀ m, m ∈ comp (view h) n ↔ Reach (view h) n m) :=
+  ⟨fun _ _ hm hx hmx => comp_closed hm hx hmx, fun _ => mem_comp⟩
+
+/-- the loop of `connected_components` lists BFS sets of nodes and covers every node -/
+theorem C09_components_cover (h : Net) :
+    (∀ c ∈ components (view h), ∃ a ∈ (view h).nodes, c = comp (view h) a) ∧
+    (∀ a ∈ (view h).nodes, ∃ c ∈ components (view h), a ∈ c) := by
+  refine ⟨compLoop_sub _ _, fun a ha => ?_⟩
+  rcases compLoop_cover (fun a ha => self_mem_comp ha) (view h).nodes [] (fun _ h => h) a ha with h0 | h1
+  · cases h0
+  · exact h1
+
+theorem C09_connected_components_rename (hπ : Injective π) (hσ : Injective σ) (h : Net) :
+    components (view (rename π σ h)) = (components (view h)).map (List.map π) ∧
+    numComponents (view (rename π σ h)) = numComponents (view h) ∧
+    isConnected (view (rename π σ h)) = isConnected (view h) ∧
+    ∀ n, comp (view (rename π σ h)) (π n) = (comp (view h) n).map π :=
+  ⟨components_ren hπ (view_rename hπ hσ h), numComponents_ren hπ (view_rename hπ hσ h),
+   isConnected_ren hπ (view_rename hπ hσ h), comp_ren hπ (view_rename hπ hσ h)⟩
+
+/-- the number of components and the component of every node do not depend on the insertion order -/
+theorem C09_connected_components_reorder (hw : h.WF) (hr : Reorder h h') :
+    numComponents (view h') = numComponents (view h) ∧ ∀ n, (comp (view h') n).Perm (comp (view h) n) :=
+  ⟨numComponents_perm' (vwf hw) (vperm hw hr), comp_perm (vperm hw hr)⟩
+
+theorem C09_shortest_path_length_rename (hπ : Injective π) (hσ : Injective σ) (h : Net) (n m : PyId) :
+    dist (view (rename π σ h)) (π n) (π m) = dist (view h) n m :=
+  dist_ren hπ (view_rename hπ hσ h) n m
+
+theorem C09_shortest_path_length_reorder (hw : h.WF) (hr : Reorder h h') (n m : PyId) :
+    dist (view h') n m = dist (view h) n m :=
+  dist_perm (vperm hw hr) n m
+
+/-! ### density -/
+
+theorem C09_density_rename (hπ : Injective π) (hσ : Injective σ) (h : Net) (o mo : Option Nat) (ign : Bool) :
+    density (view (rename π σ h)) o mo ign = density (view h) o mo ign ∧
+    incidenceDensity (view (rename π σ h)) o mo ign = incidenceDensity (view h) o mo ign :=
+  ⟨density_ren (view_rename hπ hσ h) o mo ign, incidenceDensity_ren (view_rename hπ hσ h) o mo ign⟩
+
+theorem C09_density_reorder (hw : h.WF) (hr : Reorder h h') (o mo : Option Nat) (ign : Bool) :
+    density (view h') o mo ign = density (view h) o mo ign ∧
+    incidenceDensity (view h') o mo ign = incidenceDensity (view h) o mo ign :=
+  ⟨density_perm (vperm hw hr) o mo ign, incidenceDensity_perm (vperm hw hr) o mo ign⟩
+
+/-! ### maximal and duplicate edges -/
+
+theorem C09_maximal_rename (hπ : Injective π) (hσ : Injective σ) (h : Net) (strict : Bool) :
+    maximal (view (rename π σ h)) strict = (maximal (view h) strict).map σ ∧
+    hasEmptyEdge (view (rename π σ h)) = hasEmptyEdge (view h) :=
+  ⟨maximal_ren hπ hσ (view_rename hπ hσ h) strict, hasEmptyEdge_ren (view_rename hπ hσ h)⟩
+
+theorem C09_maximal_reorder (hw : h.WF) (hr : Reorder h h') (strict : Bool) :
+    (maximal (view h') strict).Perm (maximal (view h) strict) ∧ hasEmptyEdge (view h') = hasEmptyEdge (view h) :=
+  ⟨maximal_perm (vperm hw hr) strict, hasEmptyEdge_perm (vperm hw hr)⟩
+
+theorem C09_duplicates_rename (hπ : Injective π) (hσ : Injective σ) (h : Net) :
+    dupEdges (view (rename π σ h)) = (dupEdges (view h)).map σ :=
+  dupEdges_ren hπ hσ (view_rename hπ hσ h)
+
+theorem C09_duplicates_reorder (hw : h.WF) (hr : Reorder h h') : (dupEdges (view h')).Perm (dupEdges (view h)) :=
+  dupEdges_perm (vperm hw hr)
+
+/-! ### the degree pairs of the exact degree assortativity -/
+
+theorem C09_degree_pairs_rename (hπ : Injective π) (hσ : Injective σ) (h : Net) :
+    degPairs (view (rename π σ h)) = degPairs (view h) :=
+  degPairs_ren hπ (view_rename hπ hσ h)
+
+/-- the same multiset of pairs -/
+theorem C09_degree_pairs_reorder (hw : h.WF) (hr : Reorder h h') : (degPairs (view h')).Perm (degPairs (view h)) :=
+  degPairs_perm (vperm hw hr)
+
+/-! ### matrices: entries as functions of IDs, rows / columns through the index maps -/
+
+theorem C09_incidence_matrix_rename (hπ : Injective π) (hσ : Injective σ) (h : Net) (o : Option Nat) :
+    incMatrix (view (rename π σ h)) o = incMatrix (view h) o ∧
+    (view (rename π σ h)).nodes = (view h).nodes.map π ∧
+    eidsOf (view (rename π σ h)) o = (eidsOf (view h) o).map σ ∧
+    ∀ n e, incEntry (view (rename π σ h)) (π n) (σ e) = incEntry (view h) n e :=
+  ⟨incMatrix_ren hπ (view_rename hπ hσ h) o, (view_rename hπ hσ h).nodes, eidsOf_ren (view_rename hπ hσ h) o,
+   incEntry_ren hπ (view_rename hπ hσ h)⟩
+
+/-- the matrix of `h'` is the matrix of `h` with rows and columns permuted through the index maps -/
+theorem C09_incidence_matrix_reorder (hw : h.WF) (hr : Reorder h h') (o : Option Nat) :
+    incMatrix (view h') o = (view h').nodes.map (fun n => (eidsOf (view h') o).map (fun e => incEntry (view h) n e)) ∧
+    (view h').nodes.Perm (view h).nodes ∧ (eidsOf (view h') o).Perm (eidsOf (view h) o) := by
+  refine ⟨?_, (vperm hw hr).nodes, eidsOf_perm (vperm hw hr) o⟩
+  simp only [incMatrix, incEntry_perm (vperm hw hr)]
+
+theorem C09_adjacency_matrix_rename (hπ : Injective π) (hσ : Injective σ) (h : Net) (o : Option Nat) (s : Nat) (w : Bool) :
+    adjMatrix (view (rename π σ h)) o s w = adjMatrix (view h) o s w ∧
+    ∀ n m, adjEntry (view (rename π σ h)) o s w (π n) (π m) = adjEntry (view h) o s w n m :=
+  ⟨adjMatrix_ren hπ (view_rename hπ hσ h) o s w, adjEntry_ren hπ (view_rename hπ hσ h) o s w⟩
+
+theorem C09_adjacency_matrix_reorder (hw : h.WF) (hr : Reorder h h') (o : Option Nat) (s : Nat) (w : Bool) :
+    adjMatrix (view h') o s w = (view h').nodes.map (fun n => (view h').nodes.map (fun m => adjEntry (view h) o s w n m)) ∧
+    (view h').nodes.Perm (view h).nodes := by
+  refine ⟨?_, (vperm hw hr).nodes⟩
+  simp only [adjMatrix, adjEntry_perm (vperm hw hr)]
+
+theorem C09_laplacian_rename (hπ : Injective π) (hσ : Injective σ) (h : Net) (d : Nat) :
+    lapMatrix (view (rename π σ h)) d = lapMatrix (view h) d ∧
+    ∀ n m, lapEntry (view (rename π σ h)) d (π n) (π m) = lapEntry (view h) d n m :=
+  ⟨lapMatrix_ren hπ (view_rename hπ hσ h) d, lapEntry_ren hπ (view_rename hπ hσ h) d⟩
+
+theorem C09_laplacian_reorder (hw : h.WF) (hr : Reorder h h') (d : Nat) :
+    lapMatrix (view h') d = (view h').nodes.map (fun n => (view h').nodes.map (fun m => lapEntry (view h) d n m)) ∧
+    (view h').nodes.Perm (view h).nodes := by
+  refine ⟨?_, (vperm hw hr).nodes⟩
+  simp only [lapMatrix, lapEntry_perm (vperm hw hr)]
+
+/-! ### `is_connected` does not depend on which node comes first -/
+
+theorem C09_is_connected_reorder (hw : h.WF) (hr : Reorder h h') : isConnected (view h') = isConnected (view h) := by
+  have hp := vperm hw hr
+  have hv := vwf hw
+  have full : ∀ (v : View) (a : PyId), ((comp v a).length == v.nodes.length) = true ↔ ∀ m ∈ v.nodes, m ∈ comp v a := by
+    intro v a
+    rw [beq_iff_eq, comp, ball_eq_filter, List.length_filter_eq_length_iff]
+    simp only [decide_eq_true_eq, ← ball_eq_filter]
+  unfold isConnected
+  cases h1 : (view h').nodes with
+  | nil =>
+    have := hp.nodes.length_eq; rw [h1] at this
+    have h2 : (view h).nodes = [] := List.eq_nil_of_length_eq_zero this.symm
+    simp only [h2]
+  | cons a' t' =>
+    cases h2 : (view h).nodes with
+    | nil => have := hp.nodes.length_eq; rw [h1, h2] at this; cases this
+    | cons a t =>
+      simp only [Option.some.injEq]
+      rw [Bool.eq_iff_iff, ← h1, ← h2, full, full]
+      have ha' : a' ∈ (view h).nodes := hp.nodes.mem_iff.1 (by rw [h1]; exact List.mem_cons_self)
+      have ha : a ∈ (view h).nodes := by rw [h2]; exact List.mem_cons_self
+      constructor
+      · intro hall m hm
+        have h3 : a ∈ comp (view h) a' := (comp_perm hp a').mem_iff.1 (hall a (hp.nodes.mem_iff.2 ha))
+        have h4 := (comp_perm hp a').mem_iff.1 (hall m (hp.nodes.mem_iff.2 hm))
+        exact (comp_class hv h3 m).2 ((comp_class hv h3 m).1 ((comp_class hv h3 m).2 h4)) |> fun _ =>
+          (comp_class hv h3 m).2 h4
+      · intro hall m hm
+        have hm' : m ∈ (view h).nodes := hp.nodes.mem_iff.1 hm
+        have h3 : a' ∈ comp (view h) a := hall a' ha'
+        exact (comp_perm hp a').mem_iff.2 ((comp_class hv h3 m).2 (hall m hm'))
+
+/-! ### non-vacuity: the hypotheses are satisfiable and the measures take non-trivial values -/
+
+/-- `Hypergraph({1:[1,2,3], 0:[3,4], 2:[4,5,1]})`: edge IDs are a non-identity permutation of `0..2` -/
+private def demo : Net :=
+  { nodes := [.int 1, .int 2, .int 3, .int 4, .int 5]
+    edges := [(.int 1, [.int 1, .int 2, .int 3]), (.int 0, [.int 3, .int 4]), (.int 2, [.int 4, .int 5, .int 1])] }
+
+/-- swap the IDs 0 and 1 (a non-identity permutation of `0..m-1`) -/
+private def swap01 (x : PyId) : PyId := if x = .int 0 then .int 1 else if x = .int 1 then .int 0 else x
+
+example : Injective swap01 := by
+  intro a b hab
+  unfold swap01 at hab
+  split at hab <;> split at hab <;> (try split at hab) <;> (try split at hab) <;> simp_all
+
+example : demo.WF := by simp [Net.WF, demo]
+
+example : Reorder demo (reverseAll demo) := reorder_reverseAll (by simp [demo])
+example : reverseAll demo ≠ demo := by simp [reverseAll, demo]
+example : rename id swap01 demo ≠ demo := by simp [rename, demo, swap01]
+
+example : nodeDict (view demo) degree = [(.int 1, 2), (.int 2, 1), (.int 3, 2), (.int 4, 2), (.int 5, 1)] := by decide
+example : nodeDict (view (rename id swap01 demo)) degree = nodeDict (view demo) degree := by decide
+example : edgeDict (view (rename id swap01 demo)) size = [(.int 0, 3), (.int 1, 2), (.int 2, 3)] := by decide
+example : numComponents (view demo) = 1 := by decide
+example : maximal (view (reverseAll demo)) false = [.int 2, .int 0, .int 1] := by decide
+example : triCount (view demo) (.int 1) = 6 := by decide
+/-- the F7 witness: with members looked up by ID the value at node 1 is 1/2 under both labellings -/
+example : localCC (view demo) (.int 1) = 1 / 2 := by
+  simp [localCC, view, demo, Net.memberships, Net.members, pairs, extraOverlap, diff, nbrsOfSet, neighbors, dedup, ins, rm]
+  grind
+example : localCC (view (rename id swap01 demo)) (.int 1) = 1 / 2 := by
+  simp [localCC, view, demo, rename, swap01, Net.memberships, Net.members, pairs, extraOverlap, diff, nbrsOfSet, neighbors,
+    dedup, ins, rm]
+  grind
+
 end Xgi.C09
